@@ -190,6 +190,22 @@ func faultList() []fault {
 	for _, p := range []string{"/x", "/hotp/generate/", "/HOTP/GENERATE", "/hotp", "/hotp/generate/../validate", "/%2e%2e/etc/passwd", "/otp/secret/x", strings.Repeat("/a", 3000)} {
 		out = append(out, fault{"unknown path " + trunc80(p), rawReq("GET", p, ""), true}, fault{"unknown path POST " + trunc80(p), rawReq("POST", p, "{}"), true})
 	}
+	// every first byte of a body, alone / doubled / in front of a well-formed body, and the byte-order-mark look-alikes:
+	// whatever a layer strips or skips in front of the JSON must end
+	{
+		good := bodyOf(validBody("/hotp/generate"))
+		for b := 0; b < 256; b++ {
+			ch := string([]byte{byte(b)})
+			out = append(out, fault{fmt.Sprintf("/hotp/generate body = byte %#02x", b), rawReq("POST", "/hotp/generate", ch), true},
+				fault{fmt.Sprintf("/hotp/generate body = byte %#02x twice", b), rawReq("POST", "/hotp/generate", ch+ch), true},
+				fault{fmt.Sprintf("/ocra/validate body = byte %#02x + well-formed body", b), rawReq("POST", "/ocra/validate", ch+bodyOf(validBody("/ocra/validate"))), b != ' ' && b != '\t' && b != '\n' && b != '\r'})
+		}
+		for i, pre := range []string{"\xef", "\xef\xbb", "\xef\xbb\xbf", "\xef\xbb\xbf\xef", "\xef\xbb\xbf \xef\xbb", "\xfe\xff", "\xff\xfe", "\x00\x00\xfe\xff", " \xef", "\xef\xbf\xbd", "\xc2\xa0", "\xe2\x80\xa8", "/*", "//", "<!--", "#"} {
+			out = append(out, fault{fmt.Sprintf("/hotp/generate body prefix#%d alone", i), rawReq("POST", "/hotp/generate", pre), true},
+				fault{fmt.Sprintf("/hotp/generate body prefix#%d + well-formed body", i), rawReq("POST", "/hotp/generate", pre+good), false},
+				fault{fmt.Sprintf("/totp/validate body prefix#%d + blanks", i), rawReq("POST", "/totp/validate", pre+"   "), true})
+		}
+	}
 	// request paths of every length class around 64 / 128 / 256 / 1024 bytes in several byte contents (ASCII, multi-byte
 	// UTF-8 at the end / across the boundary / throughout, continuation bytes only, a truncated sequence, 0xFF,
 	// escaped slashes and NULs): whatever a layer does with the path (logging, metrics labels, routing) must not fail
